@@ -327,7 +327,7 @@ def r5(ctx):
         ctx.check(len(cr[0].args) == 2 and norm(cr[0].args[1]) == "msgs", "C05.R5", bpi, cr[0], "the whole message list goes into the packet", line=cr[0].lineno)
         rets = [n for n in cfg.stmts((ast.Return,))]
         pv = norm(cr[0]._parent.targets[0]) if isinstance(cr[0]._parent, ast.Assign) else None
-        late = [r for r in rets if norm(r.ast.value) != pv]
+        late = [r for r in rets if not ((pv is not None and norm(r.ast.value) == pv) or r.ast.value is cr[0])]
         # early returns happen only when nothing was selected: pkt_type is UNKNOWN only if msgs is empty
         ok = all(norm(r.ast.value) == "None" for r in late)
         for r in late:
